@@ -33,8 +33,44 @@ Definition h_exitb (c : lcfg) : bool :=
   let m := reach_round c (length (c_blocks c)) [c_exit c] in
   forallb (fun b => memb b m) (seq 0 (length (c_blocks c))).
 
+(* every block is reachable from the entry: n rounds of forward marking *)
+Fixpoint fwd_round (c : lcfg) (n : nat) (marked : list nat) : list nat :=
+  match n with
+  | 0 => marked
+  | S n' => fwd_round c n' (marked ++ flat_map (fun b => lb_succ (nth_block c b)) marked)
+  end.
+Definition all_reachedb (c : lcfg) : bool :=
+  let m := fwd_round c (length (c_blocks c)) [c_entry c] in
+  forallb (fun b => memb b m) (seq 0 (length (c_blocks c))).
+
+(* structure of the event lists (ProofsComplete.shadow_wf / reassign_wf) *)
+Fixpoint shadow_wfb (es : list event) : bool :=
+  match es with
+  | [] => true
+  | e :: r =>
+      match e with
+      | EAssign p => existsb (fun e' => match e' with EShadow p' => Nat.eqb (p_id p') (p_id p) | _ => false end) r
+      | _ => true
+      end && shadow_wfb r
+  end.
+Fixpoint reassign_wfb (B : list nat) (es : list event) : bool :=
+  match es with
+  | [] => true
+  | e :: r =>
+      match e with
+      | EUse p UBorrow => reassign_wfb (map l_id (leaves (p_tree p)) ++ B) r
+      | EReassign p => forallb (fun l => memb (l_id l) B) (leaves (p_tree p)) && reassign_wfb B r
+      | _ => reassign_wfb B r
+      end
+  end.
+Definition events_wfb (c : lcfg) : bool :=
+  forallb (fun blk => shadow_wfb (lb_events blk) && reassign_wfb [] (lb_events blk)) (c_blocks c).
+Definition io_okb (c : lcfg) : bool :=
+  forallb (fun l => negb (l_inout l) || input_is_borrowed (c_inputs c) (l_id l)) (all_leaves c).
+
 Definition hyps_code (c : lcfg) : list nat :=
-  [if uniformb c then 1 else 0; if wf_shapeb c then 1 else 0; if h_exitb c then 1 else 0].
+  map (fun b : bool => if b then 1 else 0)
+      [uniformb c; wf_shapeb c; h_exitb c; all_reachedb c; events_wfb c; io_okb c; c_exit_reachable c].
 
 (** * examples *)
 Definition lf (x : nat) (k : kind) : leaf := mkLeaf x k false.
